@@ -45,7 +45,7 @@ Inductive cop :=
 | CSubmit (a : addr) (amt : Z)
 | CDeposit (a : addr) (pid amt : Z)
 | CVote (a : addr) (pid : Z)
-| CExportImport                                     (* app-level export, fresh app, InitChain *)
+| CExportImport (h : Z)                             (* app-level export, fresh app, InitChain at height h *)
 (* follow-up staking transactions; `ans` = what the validator side of the real chain answered *)
 | CDelegate (a v : addr) (amt : Z) (ans : vans)
 | CUndelegate (a v : addr) (shares : Z) (ans : vans)
@@ -74,7 +74,7 @@ Definition model_step (s : state) (o : cop) : outcome state :=
   | CSubmit a amt => submit_proposal a amt s
   | CDeposit a pid amt => add_deposit pid a amt s
   | CVote a pid => cast_vote a pid s
-  | CExportImport => Ok (export_import s)
+  | CExportImport h => Ok (export_import h s)
   | CDelegate a v amt ans => drop_env (f_delegate vans ask_obs next_obs ans s a v amt)
   | CUndelegate a v sh ans => drop_env (f_undelegate vans ask_obs next_obs ans s a v sh)
   | CWithdraw a v ans => drop_env (f_withdraw vans ask_obs next_obs ans s a v)
@@ -158,10 +158,7 @@ Definition mig_mismatch (c : mig_case) : bool :=
   match model_step (mc_pre c) (mc_op c), mc_obs c with
   | Ok s', OOk =>
       match mc_op c with
-      | CExportImport =>
-          (* the migrate store only.  Finding C14-3: today the records are dropped (= the model); the behaviour the
-             property demands — every record survives, heights re-stamped by InitGenesis — is accepted as well *)
-          negb (forallb (fun x => x) (skipn 20 (state_cmp s' (mc_post c))) || mig_kept (mc_pre c) (mc_post c))
+      | CExportImport _ => negb (forallb (fun x => x) (skipn 20 (state_cmp s' (mc_post c))))   (* the migrate store only *)
       | _ => negb (state_eqb s' (mc_post c))
       end
   | Err e, OErr code => negb (err_code e =? code) || negb (state_eqb (mc_pre c) (mc_post c))
